@@ -1276,7 +1276,7 @@ class Model:
                     out.extend(v.get(i) for i in range(v.length))
                 else:
                     raise Unsupported("splice of a symbolic sequence into a list display")
-            if any(self.is_T(v) or isinstance(v, OptT) for v in out) or not out:
+            if any(self.is_T(v) or isinstance(v, OptT) for v in out):
                 return Bag([("one", True, v) for v in out])
             return SymSeq.from_tuple(out, "list")
         b = Bag()
